@@ -32,6 +32,14 @@ impl<'a, I: crate::Input> CountedInput<'a, I> {
 	pub fn count(&self) -> u64 {
 		self.counter
 	}
+
+	/// Verification hook: create a `CountedInput` whose counter starts at `counter`, so that the
+	/// behaviour next to `u64::MAX` can be explored without reading 2^64 bytes.
+	#[cfg(parity_scale_codec_verif)]
+	#[doc(hidden)]
+	pub fn verif_new_with_count(input: &'a mut I, counter: u64) -> Self {
+		Self { input, counter }
+	}
 }
 
 impl<I: crate::Input> crate::Input for CountedInput<'_, I> {
